@@ -14,6 +14,7 @@ import (
 	rhp3 "go.sia.tech/core/rhp/v3"
 	rhp4 "go.sia.tech/core/rhp/v4"
 	"go.sia.tech/core/types"
+	"verif/ref"
 	"verif/sim"
 )
 
@@ -651,8 +652,23 @@ func runContractV2(s *Session, ops []cop) {
 				for j := 0; j < k; j++ {
 					idx = append(idx, uint64((op.r[1]+j*7)%sectors))
 				}
+				outOfRange := false
+				if op.r[2]%4 == 0 {
+					// one index names a sector the contract does not hold: at or past
+					// its size, within or beyond capacity that earlier frees left unused
+					capSectors := int(cur.Capacity / rhp4.SectorSize)
+					idx[op.r[3]%k] = uint64([]int{sectors, (sectors + capSectors) / 2, max(capSectors, 1) - 1, capSectors}[op.r[4]%4])
+					outOfRange = idx[op.r[3]%k] >= uint64(sectors)
+					if outOfRange {
+						e.inc("c17.free-out-of-range")
+					}
+				}
 				req := &rhp4.RPCFreeSectorsRequest{ContractID: fcid, Prices: p, Indices: idx}
 				verr := req.Validate(host.pk, cur) // duplicates are refused here
+				if outOfRange && verr == nil {
+					bad("free-index-out-of-range-accepted", "free of sectors %v passes the request's Validate although the contract holds %d sectors (capacity %d)", idx, sectors, cur.Capacity/rhp4.SectorSize)
+					continue
+				}
 				var rev types.V2FileContract
 				var usage rhp4.Usage
 				var cerr error
@@ -1082,7 +1098,25 @@ func runContractV1(s *Session) {
 			for _, o := range fc.MissedProofOutputs {
 				missed.Add(missed, bi(o.Value))
 			}
-			tax := bi(chain.s.FileContractTax(fc))
+			// the tax by definition (3.9% of the payout, down to a multiple of the
+			// siafund count), not by the library's own tax function
+			tax := (&ref.Params{TaxHeight: chain.s.Network.HardforkTax.Height}).V1Tax(chain.child(), fc.Payout)
+			if lib := bi(chain.s.FileContractTax(fc)); lib.Cmp(tax) != 0 {
+				bad("v1-tax-definition", "%s: payout %v is taxed %v by State.FileContractTax, 3.9%% rounded down to a multiple of 10000 is %v", what, fc.Payout, lib, tax)
+			}
+			// ... and for the smallest larger payout whose tax reaches the next multiple
+			m := new(big.Int).Add(tax, big.NewInt(10000))
+			edge := m.Mul(m, big.NewInt(1000))
+			edge.Add(edge, big.NewInt(38)).Quo(edge, big.NewInt(39))
+			if edge.BitLen() <= 128 {
+				lo, hi := new(big.Int).And(edge, new(big.Int).SetUint64(^uint64(0))).Uint64(), new(big.Int).Rsh(edge, 64).Uint64()
+				efc := types.FileContract{Payout: types.NewCurrency(lo, hi)}
+				want := (&ref.Params{TaxHeight: chain.s.Network.HardforkTax.Height}).V1Tax(chain.child(), efc.Payout)
+				if lib := bi(chain.s.FileContractTax(efc)); lib.Cmp(want) != 0 {
+					bad("v1-tax-definition", "payout %v is taxed %v by State.FileContractTax, 3.9%% rounded down to a multiple of 10000 is %v", efc.Payout, lib, want)
+				}
+				e.inc("c17.v1-tax-edge")
+			}
 			if new(big.Int).Add(valid, tax).Cmp(bi(fc.Payout)) != 0 || valid.Cmp(missed) != 0 {
 				bad("v1-tax-equation", "%s: payout %v, valid outputs %v, missed outputs %v, tax %v", what, fc.Payout, valid, missed, tax)
 			}
